@@ -54,11 +54,14 @@ void harness(void) {
 	int res;
 	tr_init();
 	if (nondet_bool()) { g_tr_n = nondet_uint(); g_tr_failed = nondet_bool(); }
+	unsigned aud_n0 = g_tr_n; _Bool aud_failed0 = g_tr_failed;     /* (audit builderY) state before the call, for the REACH guard below */
 	res = joinHashes(&g_ctx_obj, &hsr, l, r, level, nondet_bool() ? &out : NULL);
 	REACH("joinHashes returns");
 	if (res == KSI_OK) REACH("hash step done");
 	if (res == KSI_OK && l->metaData != NULL && r->metaData != NULL && g_tr_n == 7) REACH("hash step over two meta-data nodes");
 	if (res != KSI_OK && g_tr_failed) REACH("hasher failed");
+	/* (audit builderY, dfcc __invalid_ptr sharing: KSI_DataHasher_addTreeNode is replaced and called twice; pointer target g_tr_hsr) */
+	if (res != KSI_OK && g_tr_failed && !aud_failed0 && g_tr_n > aud_n0) REACH("hasher fails after the left node was fed (second call fails after the first succeeded)");
 }
 #endif
 
